@@ -21,6 +21,15 @@ ASSUME = [
 def _compute(tier, seed):
     r = tlc.run('MC_FixParams', 'FixParams_quick.cfg')
     runs = [r.summary()]
+    # spec-level negative controls: two plausible designs of fix_parameters are refuted by TLC
+    for cfg, want in (('FixParams_freshmask.cfg', ('MaskIsDomain', 'OrderIndependent', 'BufferHoldsValues')),
+                      ('FixParams_nocollapse.cfg', ('Wrapped',))):
+        try:
+            tlc.run('MC_FixParams', cfg, want_records=False)
+            raise MachineryError('negative control failed: %s not refuted' % cfg)
+        except tlc.SpecViolation as e:
+            if e.res.violated not in want:
+                raise MachineryError('%s refuted on %s' % (cfg, e.res.violated))
     if tier == 'thorough':
         runs.append(tlc.run('MC_FixParams', 'FixParams_thorough.cfg', want_records=False).summary())
     recs = r.records
@@ -57,7 +66,9 @@ def run(tier, seed):
                     'source reached by the shortest or by a longer seeded history; quick replays the transitions without '
                     'the foreign key plus a seeded eighth of the rest; non-trivial = the dictionary releases or re-fixes a '
                     'parameter' % out['na'],
-               classes=out['classes'], tlc_runs=out['runs'])
+               classes=out['classes'], tlc_runs=out['runs'],
+               spec_negative_control='FixParams_freshmask.cfg (every call starts from an empty mask) refuted on the "mask = domain" invariants; '
+                                     'FixParams_nocollapse.cfg (wrapper kept after the last release) refuted on Wrapped')
     return v.finish('model_checking', cov, ASSUME)
 
 
